@@ -301,7 +301,7 @@ func c07Loader(w *World, r *Report, id, slug string) {
 			return false
 		}
 		fa, ok := st.Addr.(*ssa.FieldAddr)
-		if !ok || fa.X != batch || fieldAddrName(fa) != "Batch" {
+		if !ok || resolveObj(fa.X) != batch || fieldAddrName(fa) != "Batch" {
 			return false
 		}
 		if isNilConst(st.Val) {
@@ -520,7 +520,7 @@ func c07Terminator(w *World, r *Report, id, slug string) {
 		var batch ssa.Value
 		eachInstr(fn, func(in ssa.Instruction) {
 			if c := plainCall(in); c != nil && strings.HasSuffix(CalleeName(c), "regattapb.Command).MarshalVT") {
-				marshal, batch = in, c.Args[0]
+				marshal, batch = in, resolveObj(c.Args[0])
 			}
 		})
 		nfw := 0
@@ -530,7 +530,7 @@ func c07Terminator(w *World, r *Report, id, slug string) {
 				return
 			}
 			fa, ok := s.Addr.(*ssa.FieldAddr)
-			if !ok || fa.X != batch || fieldAddrName(fa) != "LeaderIndex" {
+			if !ok || resolveObj(fa.X) != batch || fieldAddrName(fa) != "LeaderIndex" {
 				return
 			}
 			if isNilConst(s.Val) {
@@ -548,7 +548,7 @@ func c07Terminator(w *World, r *Report, id, slug string) {
 						return false
 					}
 					f2, ok := s2.Addr.(*ssa.FieldAddr)
-					return ok && f2.X == batch && fieldAddrName(f2) == "LeaderIndex" && isNilConst(s2.Val)
+					return ok && resolveObj(f2.X) == batch && fieldAddrName(f2) == "LeaderIndex" && isNilConst(s2.Val)
 				}
 				if marshal != nil {
 					if p := (&Walk{Barrier: func(x ssa.Instruction) bool { return x == marshal }, Target: isClr}).Find(after(in)); p != nil {
@@ -749,6 +749,14 @@ func c07Checksum(w *World, r *Report) {
 			ob.Site(in.Pos(), "restore stream opened")
 		}
 	})
+	// every table of the manifest is restored: the loop over the manifest's tables visits each one,
+	// and an iteration that does not fail opens a restore stream (an empty backup empties the table)
+	for _, sl := range sliceLoops(rs) {
+		if !strings.HasSuffix(Expr(sl.Slice), ".Tables") {
+			continue
+		}
+		checkFullTraversal(w, ob, sl, "tables of the manifest", isOpen)
+	}
 	if nopen == 0 {
 		ob.Undecided("shape", "the backup client never opens a restore stream")
 		return
